@@ -24,6 +24,8 @@ for ln in t.splitlines():
         lines.append(ln)
 (V / 'lean/ReplicatModel.lean').write_text('\n'.join(lines) + '\n')
 subprocess.run(['git', '-C', str(V), 'checkout', '--ours', 'lean/ReplicatModel/Generated.lean'], check=False)
+subprocess.run([sys.executable, str(V / 'tools/fix_driver_ns.py')], check=True)
+subprocess.run(['git', '-C', str(V), 'add', 'lean/Driver'], check=False)
 subprocess.run([sys.executable, str(V / 'tools/extract.py')], check=True)
 subprocess.run([sys.executable, str(V / 'tools/gen_manifest.py')], check=True)
 subprocess.run(['git', '-C', str(V), 'add', 'known_findings.json', 'lean/ReplicatModel.lean', 'lean/ReplicatModel/Generated.lean', 'MANIFEST.json'], check=True)
